@@ -101,3 +101,46 @@ def p_call_result(I, args, kwargs, node):
 
 
 PRIMS['call_result'] = p_call_result
+
+
+def p_split_offset(I, args, kwargs, node):
+    """split_offset(parts, i): offset of the i-th part of a str.split result in the subject"""
+    return VInt(args[0].split_off(_m.as_int(args[1])))
+
+
+def p_split_part(I, args, kwargs, node):
+    return VStr(args[0].split_parts[_m.as_int(args[1])])
+
+
+def p_is_token(I, args, kwargs, node):
+    v = args[0]
+    if isinstance(v, VToken):
+        return VBool(True)
+    if isinstance(v, VAny):
+        return VBool(Val.is_tok(v.t))
+    return VBool(False)
+
+
+PRIMS.update({'split_offset': p_split_offset, 'split_part': p_split_part, 'is_token': p_is_token})
+
+
+def p_split_facts(I, args, kwargs, node):
+    """split_facts(parts, i): the trusted str.split model's facts about part i (always true)"""
+    return VBool(args[0].split_facts(_m.as_int(args[1])))
+
+
+PRIMS['split_facts'] = p_split_facts
+
+
+def p_substr_lemma(I, args, kwargs, node):
+    """SUBSTR-TRANS (theorem of the theory of strings, used as a proof hint):
+       0<=p, 0<=lo, 0<=ln, lo+ln<=n, p+n<=len(base)  ==>
+       base[p:p+n][lo:lo+ln] == base[p+lo : p+lo+ln]"""
+    base = _m.strterm(args[0])
+    p, n, lo, ln = [_m.as_int(a) for a in args[1:5]]
+    return VBool(z3.Implies(
+        z3.And(p >= 0, lo >= 0, ln >= 0, lo + ln <= n, p + n <= z3.Length(base)),
+        z3.SubString(z3.SubString(base, p, n), lo, ln) == z3.SubString(base, p + lo, ln)))
+
+
+PRIMS['substr_lemma'] = p_substr_lemma
